@@ -157,6 +157,28 @@ fn check_kind<T: CurveInterpolation + Clone>(func: &str, kind: &str, interp: T) 
                     }
                 }
             }
+            // index value: base / value on and after the first node (the first node date included), 0 before it, at every order
+            {
+                let mut ci = build(&nodes, interp.clone(), order);
+                for o in [ADOrder::Zero, ADOrder::One, ADOrder::Two] {
+                    if ci.set_ad_order(o).is_err() { report("probe", func, "set_ad_order", "Err", "Ok", false); return true; }
+                    let mut qs = queries(&nodes);
+                    qs.push(nodes[0].0);
+                    for q in qs {
+                        let before = q < nodes[0].0;
+                        let exp = if before { 0.0 } else { 100.0 / oracle(kind, &nodes, &q) };
+                        match panic::catch_unwind(panic::AssertUnwindSafe(|| ci.index_value(&q))) {
+                            Ok(Ok(v)) => {
+                                if !close(val(&v), exp) {
+                                    report("probe", func, &format!("{} index curve (base 100), {} nodes at order {:?}: index_value({}){}", kind, n, o, q.date(), if q == nodes[0].0 { " [the first node date]" } else { "" }), &format!("{}", val(&v)), &format!("{}", exp), false);
+                                    return true;
+                                }
+                            }
+                            _ => { report("probe", func, &format!("{} index curve, index_value({})", kind, q.date()), "Err / PANIC", &format!("{}", exp), false); return true; }
+                        }
+                    }
+                }
+            }
             // derivative-order switch sequences keep every value; float curve nodes are tagged <id><i>
             for seq in [[1usize, 2, 0], [2, 1, 2], [0, 1, 1], [2, 2, 1]] {
                 for o in seq {
